@@ -60,6 +60,15 @@ def hs_case(rng):
         cap = 0   # eviction + exit makes the per-value counter wrap (u64 fetch_sub on a re-created entry): outside 'up to capacity distinct values'; tracked under C12
         rules.append("%s;c;r;%d;%s;%d;0;0;0;%d;%s" % ("hg"[j], 0 if keyed else idx, "k" if keyed else "", thr, cap, "|".join("%s=%d" % kv for kv in spec)))
         shapes.append((keyed, idx))
+    if nrules == 2 and rng.random() < 0.5:
+        # two rules that differ in ONE field only - the key, the index, or an override - are two rules (seed C05-f: rule equality
+        # overlooked the key and the second rule was dropped as a duplicate)
+        thr = rng.randint(1, 3)
+        which = rng.choice(["key", "idx", "spec"])
+        a = {"key": (0, "k", ""), "idx": (0, "", ""), "spec": (0, "", "")}[which]
+        b = {"key": (0, "z", ""), "idx": (1, "", ""), "spec": (0, "", "a=%d" % (thr + 2))}[which]
+        rules = ["h;c;r;%d;%s;%d;0;0;0;0;%s" % (a[0], a[1], thr, a[2]), "g;c;r;%d;%s;%d;0;0;0;0;%s" % (b[0], b[1], thr, b[2])]
+        shapes = [(bool(a[1]), a[0]), (bool(b[1]), b[0])]
     ops.append("hs.load res=r rules=" + ",".join(rules))
     eid = 0
     open_ = []
